@@ -1,5 +1,6 @@
 import JP.Generated.Facts
 import JP.Impl.Merge
+import JP.Codec.Stream
 
 /-!
 # Regenerated facts = what the hand-written model assumes (v5/internal/json)
@@ -67,9 +68,22 @@ theorem decodePool_eq : Generated.decodePoolDiscipline =
 
 /-- branch conditions of the byte-level codec functions the model transcribes (compact, Indent, HTMLEscape, string quoting and unquoting, the validity loop) -/
 theorem codecConditions_eq : Generated.codecConditions =
-        [("HTMLEscape", ["for i, c := range src", "if c == '<' || c == '>' || c == '&'", "if start < i", "if c == 0xE2 && i+2 < len(src) && src[i+1] == 0x80 && src[i+2]&^1 == 0xA8", "if start < i", "if start < len(src)"]),
+                [("Decoder.Decode", ["if dec.err != nil", "if err := dec.tokenPrepareForDecode(); err != nil", "if !dec.tokenValueAllowed()", "if err != nil"]),
+     ("Decoder.More", []),
+     ("Decoder.Token", ["for ", "if err != nil", "switch c", "case '['", "if !dec.tokenValueAllowed()", "case ']'", "if dec.tokenState != tokenArrayStart && dec.tokenState != tokenArrayComma", "case '{'", "if !dec.tokenValueAllowed()", "case '}'", "if dec.tokenState != tokenObjectStart && dec.tokenState != tokenObjectComma", "case ':'", "if dec.tokenState != tokenObjectColon", "case ','", "if dec.tokenState == tokenArrayComma", "if dec.tokenState == tokenObjectComma", "case '\"'", "if dec.tokenState == tokenObjectStart || dec.tokenState == tokenObjectKey", "if err != nil", "default", "if !dec.tokenValueAllowed()", "if err := dec.Decode(&x); err != nil"]),
+     ("Decoder.peek", ["for ", "for i := dec.scanp; i < len(dec.buf); i++", "if isSpace(c)", "if err != nil"]),
+     ("Decoder.readValue", ["for scanp >= 0", "for ; scanp < len(dec.buf); scanp++", "switch dec.scan.step(&dec.scan, c)", "case scanEnd", "case scanEndObject, scanEndArray", "if stateEndValue(&dec.scan, ' ') == scanEnd", "case scanError", "if err != nil", "if err == io.EOF", "if dec.scan.step(&dec.scan, ' ') == scanEnd", "if nonSpace(dec.buf)"]),
+     ("Decoder.refill", ["if dec.scanp > 0", "if cap(dec.buf)-len(dec.buf) < minRead"]),
+     ("Decoder.tokenPrepareForDecode", ["switch dec.tokenState", "case tokenArrayComma", "if err != nil", "if c != ','", "case tokenObjectColon", "if err != nil", "if c != ':'"]),
+     ("Decoder.tokenValueAllowed", ["switch dec.tokenState", "case tokenTopValue, tokenArrayStart, tokenArrayValue, tokenObjectValue"]),
+     ("Decoder.tokenValueEnd", ["switch dec.tokenState", "case tokenArrayStart, tokenArrayValue", "case tokenObjectValue"]),
+     ("Encoder.Encode", ["if enc.err != nil", "if err != nil", "if enc.indentPrefix != \"\" || enc.indentValue != \"\"", "if enc.indentBuf == nil", "if err != nil", "if _, err = enc.w.Write(b); err != nil"]),
+     ("HTMLEscape", ["for i, c := range src", "if c == '<' || c == '>' || c == '&'", "if start < i", "if c == 0xE2 && i+2 < len(src) && src[i+1] == 0x80 && src[i+2]&^1 == 0xA8", "if start < i", "if start < len(src)"]),
      ("Indent", ["for _, c := range src", "if v == scanSkipSpace", "if v == scanError", "if needIndent && v != scanEndObject && v != scanEndArray", "if v == scanContinue", "switch c", "case '{', '['", "case ','", "case ':'", "case '}', ']'", "if needIndent", "else", "default", "if scan.eof() == scanError"]),
      ("Valid", []),
+     ("arrayEncoder.encode", ["for i := 0; i < n; i++", "if i > 0"]),
+     ("boolEncoder", ["if opts.quoted", "if v.Bool()", "else", "if opts.quoted"]),
+     ("byIndex.Less", ["for k, xik := range x[i].index", "if k >= len(x[j].index)", "if xik != x[j].index[k]"]),
      ("checkValid", ["for _, c := range data", "if scan.step(scan, c) == scanError", "if scan.eof() == scanError"]),
      ("compact", ["for i, c := range src", "if escape && (c == '<' || c == '>' || c == '&')", "if start < i", "if escape && c == 0xE2 && i+2 < len(src) && src[i+1] == 0x80 && src[i+2]&^1 == 0xA8", "if start < i", "if v >= scanSkipSpace", "if v == scanError", "if start < i", "if scan.eof() == scanError", "if start < len(src)"]),
      ("decodeState.array", ["if u != nil", "if ut != nil", "switch v.Kind()", "case reflect.Interface", "if v.NumMethod() == 0", "default", "case reflect.Array, reflect.Slice", "for ", "if d.opcode == scanEndArray", "if v.Kind() == reflect.Slice", "if i >= v.Cap()", "if newcap < 4", "if i >= v.Len()", "if i < v.Len()", "if err := d.value(v.Index(i)); err != nil", "else", "if err := d.value(reflect.Value{}); err != nil", "if d.opcode == scanSkipSpace", "if d.opcode == scanEndArray", "if d.opcode != scanArrayValue", "if i < v.Len()", "if v.Kind() == reflect.Array", "for ; i < v.Len(); i++", "else", "if i == 0 && v.Kind() == reflect.Slice"]),
@@ -85,12 +99,54 @@ theorem codecConditions_eq : Generated.codecConditions =
      ("decodeState.unmarshal", ["if rv.Kind() != reflect.Pointer || rv.IsNil()", "if err != nil"]),
      ("decodeState.value", ["switch d.opcode", "default", "case scanBeginArray", "if v.IsValid()", "if err := d.array(v); err != nil", "else", "case scanBeginObject", "if v.IsValid()", "if err := d.object(v); err != nil", "else", "case scanBeginLiteral", "if v.IsValid()", "if err := d.literalStore(d.data[start:d.readIndex()], v, false); err != nil"]),
      ("decodeState.valueInterface", ["switch d.opcode", "default", "case scanBeginArray", "case scanBeginObject", "case scanBeginLiteral"]),
+     ("dominantField", ["if len(fields) > 1 && len(fields[0].index) == len(fields[1].index) && fields[0].tag == fields[1].tag"]),
+     ("encodeByteSlice", ["if v.IsNil()", "if encodedLen <= len(e.scratch)", "if encodedLen <= 1024", "else"]),
      ("encodeState.string", ["for i := 0; i < len(s);", "if b := s[i]; b < utf8.RuneSelf", "if htmlSafeSet[b] || (!escapeHTML && safeSet[b])", "if start < i", "switch b", "case '\\\\', '\"'", "case '\\n'", "case '\\r'", "case '\\t'", "default", "if c == utf8.RuneError && size == 1", "if start < i", "if c == '\\u2028' || c == '\\u2029'", "if start < i", "if start < len(s)"]),
      ("getu4", ["if len(s) < 6 || s[0] != '\\\\' || s[1] != 'u'", "for _, c := range s[2:6]", "switch ", "case '0' <= c && c <= '9'", "case 'a' <= c && c <= 'f'", "case 'A' <= c && c <= 'F'", "default"]),
+     ("intEncoder", ["if opts.quoted", "if opts.quoted"]),
+     ("interfaceEncoder", ["if v.IsNil()"]),
+     ("isEmptyValue", ["switch v.Kind()", "case reflect.Array, reflect.Map, reflect.Slice, reflect.String", "case reflect.Bool", "case reflect.Int, reflect.Int8, reflect.Int16, reflect.Int32, reflect.Int64", "case reflect.Uint, reflect.Uint8, reflect.Uint16, reflect.Uint32, reflect.Uint64, reflect.Uintptr", "case reflect.Float32, reflect.Float64", "case reflect.Interface, reflect.Pointer"]),
+     ("isValidNumber", ["if s == \"\"", "if s[0] == '-'", "if s == \"\"", "switch ", "default", "case s[0] == '0'", "case '1' <= s[0] && s[0] <= '9'", "for len(s) > 0 && '0' <= s[0] && s[0] <= '9'", "if len(s) >= 2 && s[0] == '.' && '0' <= s[1] && s[1] <= '9'", "for len(s) > 0 && '0' <= s[0] && s[0] <= '9'", "if len(s) >= 2 && (s[0] == 'e' || s[0] == 'E')", "if s[0] == '+' || s[0] == '-'", "if s == \"\"", "for len(s) > 0 && '0' <= s[0] && s[0] <= '9'"]),
+     ("isValidTag", ["if s == \"\"", "for _, c := range s", "switch ", "case strings.ContainsRune(\"!#$%&()*+-./:;<=>?@[]^_{|}~ \", c)", "case !unicode.IsLetter(c) && !unicode.IsDigit(c)"]),
+     ("mapEncoder.encode", ["if v.IsNil()", "if e.ptrLevel++; e.ptrLevel > startDetectingCyclesAfter", "if _, ok := e.ptrSeen[ptr]; ok", "for i := 0; mi.Next(); i++", "if err := sv[i].resolve(); err != nil", "for i, kv := range sv", "if i > 0"]),
+     ("newMapEncoder", ["switch t.Key().Kind()", "default", "if !t.Key().Implements(textMarshalerType)"]),
+     ("newSliceEncoder", ["if t.Elem().Kind() == reflect.Uint8", "if !p.Implements(marshalerType) && !p.Implements(textMarshalerType)"]),
+     ("newTypeEncoder", ["if t.Implements(redirMarshalerType)", "if t.Implements(trustMarshalerType)", "if t.Kind() != reflect.Pointer && allowAddr && reflect.PointerTo(t).Implements(marshalerType)", "if t.Implements(marshalerType)", "if t.Kind() != reflect.Pointer && allowAddr && reflect.PointerTo(t).Implements(textMarshalerType)", "if t.Implements(textMarshalerType)", "switch t.Kind()", "case reflect.Bool", "case reflect.Int, reflect.Int8, reflect.Int16, reflect.Int32, reflect.Int64", "case reflect.Uint, reflect.Uint8, reflect.Uint16, reflect.Uint32, reflect.Uint64, reflect.Uintptr", "case reflect.Float32", "case reflect.Float64", "case reflect.String", "case reflect.Interface", "case reflect.Struct", "case reflect.Map", "case reflect.Slice", "case reflect.Array", "case reflect.Pointer", "default"]),
+     ("nonSpace", ["for _, c := range b", "if !isSpace(c)"]),
+     ("parseTag", []),
+     ("ptrEncoder.encode", ["if v.IsNil()", "if e.ptrLevel++; e.ptrLevel > startDetectingCyclesAfter", "if _, ok := e.ptrSeen[ptr]; ok"]),
      ("pushParseState", ["if len(s.parseState) <= maxNestingDepth"]),
+     ("reflectWithString.resolve", ["if w.k.Kind() == reflect.String", "if tm, ok := w.k.Interface().(encoding.TextMarshaler); ok", "if w.k.Kind() == reflect.Pointer && w.k.IsNil()", "switch w.k.Kind()", "case reflect.Int, reflect.Int8, reflect.Int16, reflect.Int32, reflect.Int64", "case reflect.Uint, reflect.Uint8, reflect.Uint16, reflect.Uint32, reflect.Uint64, reflect.Uintptr"]),
      ("rescanLiteral", ["switch data[i-1]", "for ; i < len(data); i++", "switch data[i]", "case '\\\\'", "case '\"'", "for ; i < len(data); i++", "switch data[i]", "default", "if i < len(data)", "else"]),
      ("scanner.eof", ["if s.err != nil", "if s.endTop", "if s.endTop", "if s.err == nil"]),
+     ("sliceEncoder.encode", ["if v.IsNil()", "if e.ptrLevel++; e.ptrLevel > startDetectingCyclesAfter", "if _, ok := e.ptrSeen[ptr]; ok"]),
+     ("stringEncoder", ["if v.Type() == numberType", "if numStr == \"\"", "if !isValidNumber(numStr)", "if opts.quoted", "if opts.quoted", "if opts.quoted", "else"]),
+     ("structEncoder.encode", ["for i := range se.fields.list", "for _, i := range f.index", "if fv.Kind() == reflect.Pointer", "if fv.IsNil()", "if f.omitEmpty && isEmptyValue(fv)", "if opts.escapeHTML", "else", "if next == '{'", "else"]),
+     ("tagOptions.Contains", ["if len(o) == 0", "for s != \"\"", "if name == optionName"]),
+     ("typeByIndex", ["for _, i := range index", "if t.Kind() == reflect.Pointer"]),
+     ("typeFields", ["for len(next) > 0", "for _, f := range current", "if visited[f.typ]", "for i := 0; i < f.typ.NumField(); i++", "if sf.Anonymous", "if t.Kind() == reflect.Pointer", "if !sf.IsExported() && t.Kind() != reflect.Struct", "if !sf.IsExported()", "if tag == \"-\"", "if !isValidTag(name)", "if ft.Name() == \"\" && ft.Kind() == reflect.Pointer", "if opts.Contains(\"string\")", "switch ft.Kind()", "if name != \"\" || !sf.Anonymous || ft.Kind() != reflect.Struct", "if name == \"\"", "if count[f.typ] > 1", "if nextCount[ft] == 1", "if x[i].name != x[j].name", "if len(x[i].index) != len(x[j].index)", "if x[i].tag != x[j].tag", "for advance, i := 0, 0; i < len(fields); i += advance", "for advance = 1; i+advance < len(fields); advance++", "if fj.name != name", "if ok", "for i := range fields", "for i, field := range fields"]),
+     ("uintEncoder", ["if opts.quoted", "if opts.quoted"]),
      ("unquoteBytes", ["if len(s) < 2 || s[0] != '\"' || s[len(s)-1] != '\"'", "for r < len(s)", "if c == '\\\\' || c == '\"' || c < ' '", "if c < utf8.RuneSelf", "if rr == utf8.RuneError && size == 1", "if r == len(s)", "for r < len(s)", "if w >= len(b)-2*utf8.UTFMax", "switch c := s[r];", "case c == '\\\\'", "if r >= len(s)", "switch s[r]", "default", "case '\"', '\\\\', '/', '\\''", "case 'b'", "case 'f'", "case 'n'", "case 'r'", "case 't'", "case 'u'", "if rr < 0", "if utf16.IsSurrogate(rr)", "if dec := utf16.DecodeRune(rr, rr1); dec != unicode.ReplacementChar", "case c == '\"', c < ' '", "case c < utf8.RuneSelf", "default"])] := rfl
+
+/-- the token states of stream.go in their `iota` order are the constructors of the stream model's `TokState` -/
+def tokStateName : Codec.Stream.TokState → String
+  | .topValue => "tokenTopValue" | .arrayStart => "tokenArrayStart" | .arrayValue => "tokenArrayValue"
+  | .arrayComma => "tokenArrayComma" | .objectStart => "tokenObjectStart" | .objectKey => "tokenObjectKey"
+  | .objectColon => "tokenObjectColon" | .objectValue => "tokenObjectValue" | .objectComma => "tokenObjectComma"
+
+theorem tokenStates_eq : Generated.tokenStates =
+    ([.topValue, .arrayStart, .arrayValue, .arrayComma, .objectStart, .objectKey, .objectColon, .objectValue,
+      .objectComma] : List Codec.Stream.TokState).map tokStateName := rfl
+
+/-- what the stream model assumes beyond the branch conditions: the sticky `dec.err` is assigned in `readValue` only
+(twice: scanner error, reader error) — not by `Decode` for the error of `unmarshal`, not by `peek`, `Token`,
+`tokenPrepareForDecode`; the expression `More` returns; `Encode` appends one newline -/
+theorem streamShape_eq : Generated.streamShape =
+    [("Decode.stickyAssigns", "0"), ("readValue.stickyAssigns", "2"), ("refill.stickyAssigns", "0"),
+     ("Token.stickyAssigns", "0"), ("More.stickyAssigns", "0"), ("peek.stickyAssigns", "0"),
+     ("tokenPrepareForDecode.stickyAssigns", "0"), ("tokenValueAllowed.stickyAssigns", "0"),
+     ("tokenValueEnd.stickyAssigns", "0"), ("tokenError.stickyAssigns", "0"),
+     ("More.returns", "err == nil && c != ']' && c != '}'"), ("Encode.newline", "1")] := rfl
 
 end Facts
 end JP
